@@ -61,7 +61,11 @@ CONV = {
     '{}': {'int': 'REJ', 'float': 'REJ', 'bool': 'REJ', 'str': "'{}'", 'list': "['{}']", 'dict': 'SAME'},
     '()': {'int': 'REJ', 'float': 'REJ', 'bool': 'REJ', 'str': "'()'", 'list': "['()']", 'dict': "{'()': ''}"},
     "'0'": {'int': '0', 'float': '0.0', 'bool': 'False', 'str': 'SAME', 'list': "['0']", 'dict': "{'0': ''}"},
+    # byte strings (not valid UTF-8 / valid): convert_value works on str(value), i.e. on the text b'...' - never on decoded bytes
+    "b'caf\\xe9'": {'int': 'REJ', 'float': 'REJ', 'bool': 'REJ', 'str': '"b\'caf\\\\xe9\'"', 'list': '["b\'caf\\\\xe9\'"]', 'dict': '{"b\'caf\\\\xe9\'": \'\'}'},
+    "b'41'": {'int': 'REJ', 'float': 'REJ', 'bool': 'REJ', 'str': '"b\'41\'"', 'list': '["b\'41\'"]', 'dict': '{"b\'41\'": \'\'}'},
 }
+BYTES_LITS = ["b'caf\\xe9'", "b'41'"]
 # literals a caller / source may supply for a parameter with the given value_type: (valid ones, near misses)
 GOOD = {'int': ['17', '23', "'41'", "' 42 '", 'True', "'1'", "'0'", '0'],
         'float': ['2.5', "'3.5'", '17', "'41'", "' 42 '", '0.0', "'0'"],
@@ -71,6 +75,10 @@ GOOD = {'int': ['17', '23', "'41'", "' 42 '", 'True', "'1'", "'0'", '0'],
         'dict': ["{'k': 'w'}", "'k:w'", "'xq'", '{}']}
 BAD = {'int': ["'xq'", '2.5', "'3.5'", "'true'", "''"], 'float': ["'xq'", 'True', "'true'", "''"],
        'bool': ["'xq'", '17', '2.5', "''"], 'str': [], 'list': [], 'dict': []}
+for _t in ('int', 'float', 'bool'):
+    BAD[_t] = BAD[_t] + BYTES_LITS
+for _t in ('str', 'list', 'dict'):
+    GOOD[_t] = GOOD[_t] + BYTES_LITS
 RAW_LITS = ['17', '23', '2.5', "'xq'", "'Ab'", "'41'"]      # literals used where no value_type is involved
 ENV_GOOD = {'str': ['xq', 'Ab', ' 41 ', '', '41'], 'bool': ['true', 'False', '1', '0', ' true '],
             'int': ['41', ' 41 ', '1', '0'], 'float': ['3.5', '41', ' 41 ', '0']}
@@ -871,6 +879,8 @@ def flask_cases(rng, count):
                         v = b.lit("'41'")
                     if v is not None and b.lits[v] == '()':
                         v = b.lit('[]')
+                    if v is not None and b.lits[v].startswith("b'"):
+                        v = b.lit("'41'")            # bytes are no JSON values
                     fl['json'][nm] = v
                     if body == 'json':
                         ext = v
@@ -1318,7 +1328,7 @@ def gate_enum(rng):
                                         if vt is None:
                                             vals_in.append(b.obj())
                                         else:
-                                            vals_in.append(b.lit(["'xq'", '2.5'][ctr % 2] if bad else ['17', "'41'", "' 42 '", '23'][(ctr + i) % 4]))
+                                            vals_in.append(b.lit(["'xq'", '2.5', BYTES_LITS[0]][ctr % 3] if bad else ['17', "'41'", "' 42 '", '23'][(ctr + i) % 4]))
                                     params = []
                                     order = list(range(n)) if ctr % 2 else list(reversed(range(n)))
                                     for i in order:
